@@ -38,7 +38,7 @@ CLAUSES = {"join": "valid distinct address recorded under its ID within the time
            "lookup": "master's current mapping, trivial answers, -2 / -1 codes", "undisturbed": "asking never disturbs the master",
            "release": "back to the unassigned address, lease freed", "connected": "check_connection() True exactly for connected nodes",
            "safe": "with loss: no exception, termination, valid-or-None"}
-PROBES = ["collision"]
+PROBES = ["collision", "isolated_call_evaluated", "join_via_relay"]
 SHRINK_KEYS = ("joiners", "faults")
 CHUNK = 2
 MAX_INCONCLUSIVE = 0.03
@@ -194,6 +194,7 @@ def _run(scn, w, res):
         for t in w.air.trace:
             if not t["ack"] and c_.t0 - 5 * MS <= t["t0"] <= c_.t1 and (len(t["data"]) < 8 or t["data"][6] not in types):
                 return False
+        sim.count("isolated_call_evaluated")     # reach probe: how often the liveness-flavoured clauses were really enforced
         return True
 
     def answer_arrived(nc_, c_, my_addr=None):
@@ -253,6 +254,7 @@ def _run(scn, w, res):
                 joined += 1
                 if netref.level(addr) > 1:
                     via_relay = True
+                    sim.count("join_via_relay")
                 if not any(tab.get(nid) == addr for tab in tables(c.t0, c.t1 + 50 * MS)):
                     res.add("join", {"kind": "not_in_master_table"}, "id %d was given %o but the master's table held %r for it" % (nid, addr, [oct(t[nid]) if nid in t else None for t in tables(c.t0, c.t1)][-1]))
                 continue
